@@ -15,6 +15,7 @@ var signerPos = map[string]int{
 	"bcn.reg": 2, "bcn.rec": 3, "bcn.buy": 2, "str.create": 1, "str.claim": 0, "str.topup": 1,
 	"str.rate": 1, "str.cancel": 1, "bank.send": 0, "authz.grant": 0, "authz.revoke": 0,
 	"authz.exec": 0, "feegrant.grant": 0,
+	"ent.params": 0, "wrk.params": 0, "bcn.params": 0, "str.params": 0, // the authority named by a parameter update signs it
 }
 
 // otherPos is a second address argument (the "named address"), -1 if there is none.
@@ -127,7 +128,7 @@ func (g *G) acct(i int) string {
 
 // badAddr is an address token that names no usable scenario account.
 func (g *G) badAddr() string {
-	return g.pick("X", "-", "Ment", "Mstr", "Mgov", "Mfee", fmt.Sprintf("U%d", g.anyAcct()))
+	return g.pick("X", "-", "Ment", "Mstr", "Mgov", "Mfee", "UMfee", "UMstr", "UMent", "UMdist", fmt.Sprintf("U%d", g.anyAcct()))
 }
 
 // payer picks an account able to pay fees and deposits (falls back to any account).
@@ -227,7 +228,7 @@ func (g *G) msg(kind string, v *view, aware bool, who int, depth int) script.Msg
 	switch kind {
 	case "ent.raise":
 		p := who
-		if p < 0 {
+		if p == -1 {
 			if p = g.liveAcct(v, aware); aware && len(v.wl) > 0 {
 				p = g.pickInt(v.wl)
 			}
@@ -506,7 +507,7 @@ func (g *G) msg(kind string, v *view, aware bool, who int, depth int) script.Msg
 		if !aware {
 			switch g.rng.Intn(4) {
 			case 0:
-				ttok = g.pick("Ment", "Mstr", "Mfee", "Mdist", "Mbond", "X", "-")
+				ttok = g.pick("Ment", "Mstr", "Mfee", "Mdist", "Mbond", "X", "-", "UMent", "UMstr", "UMfee")
 			case 1:
 				coins = g.pick("0nund", "-1nund", "-", "5nund,3btoken", "1nund,1nund", "2000000000000000000nund", "1stake")
 			case 2:
